@@ -64,7 +64,8 @@ type Document struct {
 	// pointerCache is setup once when the document is created.
 	pointerCache sync.Map // map[string]Node
 
-	families FamilyNodes
+	families      FamilyNodes
+	familiesEpoch uint64
 
 	// familiesMutex guards families, which is filled lazily by readers that
 	// may run concurrently (see IndividualNodes.Compare).
@@ -140,13 +141,14 @@ func (doc *Document) Families() (families FamilyNodes) {
 	doc.familiesMutex.Lock()
 	defer doc.familiesMutex.Unlock()
 
-	if doc.families != nil {
+	if doc.families != nil && doc.familiesEpoch == currentEditEpoch() {
 		return doc.families
 	}
 
-	defer func() {
+	defer func(epoch uint64) {
 		doc.families = families
-	}()
+		doc.familiesEpoch = epoch
+	}(currentEditEpoch())
 
 	families = FamilyNodes{}
 
@@ -205,6 +207,7 @@ func (doc *Document) AddNode(node Node) {
 	if !IsNil(node) {
 		doc.nodes = append(doc.nodes, node)
 		doc.addPointerToCache(node)
+		nodesChanged()
 	}
 }
 
@@ -287,6 +290,8 @@ func (doc *Document) nonIndividuals() Nodes {
 
 func (doc *Document) SetNodes(nodes Nodes) {
 	doc.nodes = nodes
+	doc.buildPointerCache()
+	nodesChanged()
 }
 
 func individuals(doc *Document) IndividualNodes {
@@ -343,6 +348,13 @@ func (doc *Document) AddFamilyWithHusbandAndWife(pointer string, husband, wife *
 
 func (doc *Document) DeleteNode(node Node) (didDelete bool) {
 	doc.nodes, didDelete = doc.nodes.deleteNode(node)
+
+	if didDelete {
+		// Another node may use the same pointer. The index has to be built
+		// again to find out.
+		doc.buildPointerCache()
+		nodesChanged()
+	}
 
 	return
 }
